@@ -255,7 +255,7 @@ reg("C19",
                  "rate_print_parse_closed has no hypothesis left: Atoi(Itoa n) = n (DecimalProofs) and ParseDuration(Duration.String d) = d for 0 < d < 2^63 (duration_string_parses) are theorems about the reference models; the Duration.String model (Base/DurString.v, library code) is compared with the printed form of every accepted rate on each run (diff 15)",
                  "IPv6 resolver addresses are outside the model (don't-care)"],
     trusted_base=["hook: /repo/verif_driver.go and internal/resolver/verif_export.go (build tag verif)"],
-    level_text="duration_string_parses, rate_print_parse_closed, rate_meaning, rate_default_unit, rate_bare_unit(+values), rate_zero_unlimited, rate_infinity_unlimited, rate_rejects_malformed(+_duration), headers_set_wellformed, headers_accumulate, connect_to_map, connect_to_rejects_wrong_arity, resolver_addrs_default_port are proved in Coq for all strings about byte-level Gallina models of the flag parsers; the models are compared with flag.Value.Set of the real types (through the verif driver of package main) on every run and each stored value is judged against the generator's intent by a checker defined in Coq.",
+    level_text="duration_string_parses, rate_print_parse_closed, maxbody_notation (every n, every documented unit spelling, any blanks), dnsttl_meaning (-1, 0, every printed duration), rate_meaning, rate_default_unit, rate_bare_unit(+values), rate_zero_unlimited, rate_infinity_unlimited, rate_rejects_malformed(+_duration), headers_set_wellformed, headers_accumulate, connect_to_map, connect_to_rejects_wrong_arity, resolver_addrs_default_port are proved in Coq for all strings about byte-level Gallina models of the flag parsers; the models are compared with flag.Value.Set of the real types (through the verif driver of package main) on every run and each stored value is judged against the generator's intent by a checker defined in Coq.",
     technique="Coq proofs over byte-string parser models; differential correspondence through the package-main driver",
     timeout={"quick": 600, "thorough": 3000})
 
